@@ -64,98 +64,84 @@ theorem stale_graph_absent_counterexample :
 /-! ## 3. commit-graph: the parent encoding of writer and reader -/
 
 open Dulwich.CommitGraphFmt in
-/-- the marker values the model's arithmetic relies on (`& ~FLAG` = `- FLAG`, `& FLAG` = `≥ FLAG` below 2^32) -/
-theorem markers_wf : MISSING < EXTRA ∧ EXTRA = 2 ^ 31 ∧ LAST = 2 ^ 31 ∧ Gen.Accel.graphParentNone = MISSING := by
+/-- the marker values the model's arithmetic relies on: "no parent" and "parent not in the file" are distinct
+(they were the same value before the repair — the root cause of the open-set defect), both lie above every
+position and below the flag bit; `& ~FLAG` = `- FLAG`, `& FLAG` = `≥ FLAG` below 2^32 -/
+theorem markers_wf : NONE < MISSING ∧ MISSING < EXTRA ∧ EXTRA = 2 ^ 31 ∧ LAST = 2 ^ 31 := by
   decide
 
 open Dulwich.CommitGraphFmt in
-/-- FULL theorem (since the writer emits the EDGE chunk): for a set of commits that contains all parents of its
-members — what `generate_commit_graph` produces, see `generate_keeps_closed_set` — the reader of the written
-file returns EVERY commit's full parent list, whatever the number of parents. -/
+/-- FULL theorem: whatever set of commits is written — any number of parents per commit (EDGE chunk), parents
+inside or outside the set — the reader of the written file answers for the commit at position `i` with its
+FULL parent list if all of its parents are in the file, and with "unknown" (`get_parents` returns None, callers
+read the commit object) otherwise.  Never a shortened list, never an error. -/
 theorem commit_graph_parents_roundtrip (es : List (Bytes × List Bytes)) (i : Nat) (e : Bytes × List Bytes)
-    (hn : es.length < MISSING) (hc : Closed es) (hi : es[i]? = some e) :
-    roundTripParents es i = some (.ok e.2) :=
-  roundTrip_closed es i e hn hc hi
+    (hn : es.length < NONE) (hi : es[i]? = some e) :
+    roundTripParents es i = some (.ok (if (∀ p ∈ e.2, p ∈ es.map (·.1)) then some e.2 else none)) :=
+  roundTrip_answer es i e hn hi
 
 open Dulwich.CommitGraphFmt in
 example : roundTripParents [([1], []), ([2], []), ([3], []), ([4], [[1], [2], [3]]), ([5], [[4], [3], [2], [1]])] 4
-    = some (.ok [[4], [3], [2], [1]]) := by decide
+    = some (.ok (some [[4], [3], [2], [1]])) := by decide
 
 open Dulwich.CommitGraphFmt in
-/-- a set that lacks a parent of one of its members is not written at all (`ValueError`): there is no file that
-could answer with a shortened list -/
-theorem commit_graph_open_set_refused (es : List (Bytes × List Bytes)) (i : Nat) (hc : ¬ Closed es) :
-    roundTripParents es i = none :=
-  roundTrip_open es i hc
+/-- an entry with a parent outside the written set (`write_commit_graph(reachable=False)`) answers "unknown" -/
+theorem commit_graph_open_set_unknown (es : List (Bytes × List Bytes)) (i : Nat) (e : Bytes × List Bytes)
+    (hn : es.length < NONE) (hi : es[i]? = some e) (p : Bytes) (hp : p ∈ e.2) (hout : p ∉ es.map (·.1)) :
+    roundTripParents es i = some (.ok none) := by
+  rw [commit_graph_parents_roundtrip es i e hn hi, if_neg (fun h => hout (h p hp))]
 
 open Dulwich.CommitGraphFmt in
-/-- THE soundness statement for the file as a cache: every answer the graph gives equals the real parent list
-(for any set of commits whatsoever — either nothing is written, or everything read back is right). -/
-theorem commit_graph_answers_are_real (es : List (Bytes × List Bytes)) (i : Nat) (r : Except Err (List Bytes))
-    (hn : es.length < MISSING) (h : roundTripParents es i = some r) :
-    ∃ e, es[i]? = some e ∧ r = .ok e.2 := by
-  by_cases hc : Closed es
-  · cases hi : es[i]? with
-    | none =>
-      -- no such position: the writer produced one slot per entry, so there is no slot either
-      exfalso
-      unfold roundTripParents at h
-      cases hok : encodeAll (es.map (·.1)) (es.map (·.2)) 0 with
-      | error _ => simp [hok] at h
-      | ok t =>
-        obtain ⟨slots, edges⟩ := t
-        have hl := encodeAll_length _ _ 0 slots edges hok
-        have : slots[i]? = none := by
-          rw [List.getElem?_eq_none_iff]
-          have := List.getElem?_eq_none_iff.mp hi
-          simp at hl; omega
-        simp [hok, this] at h
-    | some e =>
-      have := roundTrip_closed es i e hn hc hi
-      rw [this] at h
-      exact ⟨e, rfl, (Option.some.inj h).symm⟩
-  · rw [roundTrip_open es i hc] at h; cases h
+/-- THE soundness statement for the file as a cache: every answer the graph gives (every non-None answer)
+equals the commit's real parent list. -/
+theorem commit_graph_answers_are_real (es : List (Bytes × List Bytes)) (i : Nat) (e : Bytes × List Bytes)
+    (ans : List Bytes) (hn : es.length < NONE) (hi : es[i]? = some e)
+    (h : roundTripParents es i = some (.ok (some ans))) : ans = e.2 := by
+  rw [commit_graph_parents_roundtrip es i e hn hi] at h
+  by_cases hc : ∀ p ∈ e.2, p ∈ es.map (·.1)
+  · rw [if_pos hc] at h
+    have h2 := Option.some.inj h
+    have h3 := Except.ok.inj h2
+    exact (Option.some.inj h3).symm
+  · rw [if_neg hc] at h
+    have h2 := Option.some.inj h
+    have h3 := Except.ok.inj h2
+    cases h3
 
 open Dulwich.CommitGraphFmt in
-/-- `generate_commit_graph` keeps a closed subset of the requested commits, each with its own parent list -/
-theorem generate_keeps_closed_set (es : List (Bytes × List Bytes)) :
-    Closed (closeEntries es.length es) ∧ ∀ e ∈ closeEntries es.length es, e ∈ es :=
-  ⟨(closedB_iff _).mp (closeEntries_closed es.length es (Nat.le_refl _)), closeEntries_sub es.length es⟩
+/-- tips without their history: 3's parent 2 is not written ⇒ unknown; the root 7 and its child 8 are answered -/
+example : (List.range 3).map (roundTripParents [([3], [[2]]), ([7], []), ([8], [[7]])]) =
+    [some (.ok none), some (.ok (some [])), some (.ok (some [[7]]))] := by decide
 
 open Dulwich.CommitGraphFmt in
-/-- tips without their history (`write_commit_graph(reachable=False)`): 3 ← 2 ← (1 outside) is left out
-entirely, the independent root 7 and its child 8 stay -/
-example : (closeEntries 4 [([3], [[2]]), ([2], [[1]]), ([7], []), ([8], [[7]])]).map (·.1) = [[7], [8]] := by decide
-
-open Dulwich.CommitGraphFmt in
-/-- REGRESSION WITNESS on the writer as it was before the repair: an octopus merge kept only its first two
-parents (reproduced on the real code at the time: corpus/C14/octopus.json, finding F-C14-octopus) -/
+/-- REGRESSION WITNESS on the writer as it originally was: an octopus merge kept only its first two parents
+(reproduced on the real code at the time: corpus/C14/octopus.json, finding F-C14-octopus) -/
 theorem octopus_counterexample_old :
-    roundTripParentsOld [([1], []), ([2], []), ([3], []), ([4], [[1], [2], [3]])] 3 = some (.ok [[1], [2]]) ∧
-    roundTripParents [([1], []), ([2], []), ([3], []), ([4], [[1], [2], [3]])] 3 = some (.ok [[1], [2], [3]]) := by
+    roundTripParentsOld [([1], []), ([2], []), ([3], []), ([4], [[1], [2], [3]])] 3 = some (.ok (some [[1], [2]])) ∧
+    roundTripParents [([1], []), ([2], []), ([3], []), ([4], [[1], [2], [3]])] 3 = some (.ok (some [[1], [2], [3]])) := by
   decide
 
 open Dulwich.CommitGraphFmt in
-/-- REGRESSION WITNESS on the old writer: a parent outside the written set was mapped to GRAPH_PARENT_MISSING and
-dropped by the reader (corpus/C14/open-set.json, finding F-C14-open-set); now nothing is written -/
+/-- REGRESSION WITNESS on the original writer: a parent outside the written set was written with the bits of "no
+parent" and the commit read back as a root (corpus/C14/open-set.json, finding F-C14-open-set); now: unknown -/
 theorem open_set_counterexample_old :
-    roundTripParentsOld [([3], [[2]])] 0 = some (.ok []) ∧ roundTripParents [([3], [[2]])] 0 = none := by
+    roundTripParentsOld [([3], [[2]])] 0 = some (.ok (some [])) ∧
+    roundTripParents [([3], [[2]])] 0 = some (.ok none) := by
   decide
 
 open Dulwich.CommitGraphFmt in
-/-- The READER is right about commits with three or more parents when the file has an EDGE chunk (what C git
-writes): first parent in slot 1, slot 2 = `GRAPH_EXTRA_EDGES_NEEDED | k`, remaining parents from word `k` of the
-EDGE chunk, the last one flagged — every parent comes back, in order.  So the octopus defect is the writer's
-alone (it has no EDGE chunk), which is what the proposed patch addresses. -/
+/-- The READER on C git's encoding of a commit with three or more parents (first parent in slot 1, slot 2 =
+`GRAPH_EXTRA_EDGES_NEEDED | k`, remaining parents from word `k` of the EDGE chunk, the last one flagged): every
+parent comes back, in order. -/
 theorem commit_graph_reader_edges (oids : List Bytes) (pre init junk : List Nat) (p1 last : Nat)
-    (h1 : p1 < oids.length) (hn : oids.length < MISSING)
-    (hin : ∀ p ∈ init, p < oids.length ∧ p < LAST) (hl : last < oids.length) :
+    (h1 : p1 < oids.length) (hn : oids.length < NONE)
+    (hin : ∀ p ∈ init, p < oids.length) (hl : last < oids.length) :
     decodeParents oids (some (pre ++ (init ++ [last + LAST] ++ junk))) p1 (EXTRA + pre.length) =
-      .ok ((p1 :: (init ++ [last])).filterMap (oids[·]?)) :=
+      .ok (some ((p1 :: (init ++ [last])).filterMap (oids[·]?))) :=
   decodeParents_edges oids pre init junk p1 last h1 hn hin hl
 
 open Dulwich.CommitGraphFmt in
-example : decodeParents [[1], [2], [3], [4]] (some [9, 1, 2 + LAST]) 0 (EXTRA + 1) = .ok [[1], [2], [3]] := by
+example : decodeParents [[1], [2], [3], [4]] (some [9, 1, 2 + LAST]) 0 (EXTRA + 1) = .ok (some [[1], [2], [3]]) := by
   decide
 
 /-! ## 4. multi-pack-index consumers -/
